@@ -73,7 +73,8 @@ class TL(ASTNode):
 
 @dataclass(frozen=True)
 class TS(TL):
-    pass
+    def __bool__(self) -> bool:  # falsy in a boolean context
+        return False
 
 
 @dataclass(frozen=True)
@@ -82,6 +83,9 @@ class TP(ASTNode):
     items: tuple[ASTNode, ...] = ()
     tag: int = 0
     note: int = dataclasses.field(default=0, compare=False)
+
+    def __len__(self) -> int:  # container-like: falsy in a boolean context while `items` is empty (may still hold other children)
+        return len(self.items)
 
 
 @dataclass(frozen=True)
